@@ -273,7 +273,7 @@ fn epoch(ctx: &mut Ctx, base: &Fs, m0: &Model, hist: &[Op], epoch_no: usize, tra
     let live = observe(&store);
     drop(store);
     env::io_end();
-    if live != *states.last().unwrap() {
+    if !model_matches(states.last().unwrap(), &live) {
         ctx.violation(
             "c02:live-store-differs-from-model",
             format!("after {hist:?} live store shows [{}] but reference says [{}]", show_model(&live), show_model(states.last().unwrap())),
